@@ -418,6 +418,49 @@ func cellAliases(v ssa.Value) []ssa.Value {
 	return out
 }
 
+// cellValue: for a load of a local cell (a named result or a variable that go/ssa keeps in memory because a defer or
+// a closure can see it), the value of the one store that reaches the load - the latest store to the cell that
+// dominates it, provided every other store to the cell also dominates that one or cannot lie between them; any other
+// value is returned unchanged.
+func cellValue(v ssa.Value) ssa.Value {
+	for hops := 0; hops < 4; hops++ {
+		ld, ok := v.(*ssa.UnOp)
+		if !ok {
+			return v
+		}
+		al, ok := ld.X.(*ssa.Alloc)
+		if !ok {
+			return v
+		}
+		var best *ssa.Store
+		var all []*ssa.Store
+		for _, r := range *al.Referrers() {
+			if st, ok := r.(*ssa.Store); ok && st.Addr == ssa.Value(al) {
+				all = append(all, st)
+				if dominatesInstr(st, ld) && (best == nil || dominatesInstr(best, st)) {
+					best = st
+				}
+			}
+		}
+		if best == nil {
+			return v
+		}
+		// no other store may lie on a path between best and the load: every other store either dominates best (it is
+		// overwritten) or is not reachable from best before the load (approximated: it does not dominate the load and is
+		// not dominated by best)
+		for _, st := range all {
+			if st == best || dominatesInstr(st, best) {
+				continue
+			}
+			if dominatesInstr(best, st) {
+				return v
+			}
+		}
+		v = best.Val
+	}
+	return v
+}
+
 // retOperand resolves the i-th result of a return through the result cell go/ssa uses in functions with defer
 // (`*cell = v; rundefers; t = *cell; return t`).
 func retOperand(ret *ssa.Return, i int) ssa.Value {
